@@ -49,29 +49,31 @@ REGION_KEYWORDS = [None, None, 'loki', 'acc', 'omp', 'LOKI']
 # history strategies (plain JSON)
 # ---------------------------------------------------------------------------
 
-def _ctx_op(children):
+def _ctx_op(children, allow_dfa=True):
     types = st.lists(st.sampled_from(NODE_TYPES), min_size=1, max_size=5, unique=True).map(sorted)
     common = dict(body=st.lists(children, max_size=3), raises=st.sampled_from([None, None, None, 0, 1, 5]))
-    return st.one_of(
+    opts = [
         st.fixed_dictionaries(dict(op=st.just('pragmas'), types=types, post=st.booleans(),
                                    via=st.sampled_from(['ctx', 'ctx', 'fn']), **common)),
         st.fixed_dictionaries(dict(op=st.just('pragmas'), types=st.just(['Loop']), post=st.booleans(),
                                    via=st.sampled_from(['ctx', 'fn']), **common)),
         st.fixed_dictionaries(dict(op=st.just('regions'), keyword=st.sampled_from(REGION_KEYWORDS),
                                    via=st.sampled_from(['ctx', 'ctx', 'fn']), **common)),
-        st.fixed_dictionaries(dict(op=st.just('dfa'), via=st.sampled_from(['ctx', 'dfa_attached', 'fn']), **common)),
-    )
+    ]
+    if allow_dfa:
+        opts.append(st.fixed_dictionaries(dict(op=st.just('dfa'), via=st.sampled_from(['ctx', 'dfa_attached', 'fn']), **common)))
+    return st.one_of(opts)
 
 
-def nested_history():
+def nested_history(allow_dfa=True):
     leaf = st.just({'op': 'query'})
-    op = st.recursive(leaf, _ctx_op, max_leaves=6)
-    ctx_root = _ctx_op(op)
-    return st.lists(ctx_root, min_size=1, max_size=3).map(lambda ops: {'mode': 'nested', 'ops': ops})
+    mk = lambda ch: _ctx_op(ch, allow_dfa)   # noqa
+    op = st.recursive(leaf, mk, max_leaves=5)
+    return st.lists(mk(op), min_size=1, max_size=2).map(lambda ops: {'mode': 'nested', 'ops': ops})
 
 
 @st.composite
-def flat_history(draw):
+def flat_history(draw, allow_dfa=True):
     """non-LIFO interleaving of attach/detach function pairs; every attach is detached"""
     steps, active, n = [], [], 0
     for _ in range(draw(st.integers(2, 7))):
@@ -79,7 +81,7 @@ def flat_history(draw):
             i = draw(st.integers(0, len(active) - 1))
             steps.append(['detach', active.pop(i)])
         else:
-            kind = draw(st.sampled_from(['pragmas', 'pragmas', 'regions', 'dfa']))
+            kind = draw(st.sampled_from(['pragmas', 'pragmas', 'regions'] + (['dfa'] if allow_dfa else [])))
             d = {'op': kind}
             if kind == 'pragmas':
                 d['types'] = sorted(draw(st.lists(st.sampled_from(NODE_TYPES), min_size=1, max_size=4, unique=True)))
@@ -94,8 +96,12 @@ def flat_history(draw):
     return {'mode': 'flat', 'steps': steps}
 
 
-def history():
-    return st.one_of(nested_history(), nested_history(), nested_history(), flat_history())
+def history(allow_dfa=True):
+    n = nested_history(allow_dfa)
+    return st.one_of(n, n, n, flat_history(allow_dfa))
+
+
+HISTORIES_PER_UNIT = 3      # parse / build once, run several histories on the unit while it stays clean
 
 
 def has_op(hist, kind):
@@ -104,16 +110,16 @@ def has_op(hist, kind):
 
 @st.composite
 def parsed_cases(draw, triggers):
-    hist = draw(history())
-    # listed finding: attaching dataflow info raises on every unit that contains a derived-type definition;
-    # while it reproduces, units of histories that attach dataflow info are generated without TypeDef
-    no_typedef = bool(triggers.get('dfa-attach-raises-on-TypeDef')) and has_op(hist, 'dfa')
     no_bare_end = bool(triggers.get('regions-attach-raises-on-bare-end'))
-    u = draw(pragsrc.unit_source(allow_typedef=not no_typedef, allow_bare_end=not no_bare_end))
-    case = {'dom': 'src', 'unit': u['unit'], 'name': u['name'], 'src': u['src'], 'hist': hist}
+    u = draw(pragsrc.unit_source(allow_bare_end=not no_bare_end))
+    # listed finding: attaching dataflow info raises on every unit that contains a derived-type definition;
+    # while it reproduces, histories of such units are generated without dataflow operations
+    no_dfa = bool(triggers.get('dfa-attach-raises-on-TypeDef')) and u['typedef']
+    hists = draw(st.lists(history(allow_dfa=not no_dfa), min_size=HISTORIES_PER_UNIT, max_size=HISTORIES_PER_UNIT))
+    case = {'dom': 'src', 'unit': u['unit'], 'name': u['name'], 'src': u['src'], 'hists': hists}
     excluded = []
-    if no_typedef:
-        excluded.append('TypeDef in a unit whose history attaches dataflow info (listed: attach raises RuntimeError)')
+    if no_dfa:
+        excluded.append('dataflow operations on a unit with a TypeDef (listed: attach raises RuntimeError)')
     if no_bare_end:
         excluded.append('pragma whose last word is "end" (listed: attach_pragma_regions raises IndexError)')
     if excluded:
@@ -155,8 +161,17 @@ def known_triggers():
             strips = len(Transformer({}, inplace=True).visit(ir.Section(body=(mc,))).body[0].bodies) != 2
         except Exception:  # noqa
             strips = True
+        P = lambda t: ir.Pragma(keyword='loki', content=t)   # noqa
+        a, b, c, d = P('x'), P('x'), P('end x'), P('end x')
+        cond = ir.Conditional(condition=sym.LogicLiteral(True), body=(b, c), else_body=())
+        sec = ir.Section(body=(a, cond, d))
+        try:
+            pu.detach_pragma_regions(pu.attach_pragma_regions(sec))
+            by_eq = not (len(sec.body) == 3 and sec.body[0] is a and sec.body[2] is d and cond.body[0] is b)
+        except Exception:  # noqa
+            by_eq = True
         _TRIGGERS = {'dfa-attach-raises-on-TypeDef': raised, 'regions-attach-raises-on-bare-end': bare_end,
-                     'transformer-strips-empty-branch-bodies': strips}
+                     'transformer-strips-empty-branch-bodies': strips, 'regions-located-by-equality': by_eq}
     return _TRIGGERS
 
 
@@ -187,9 +202,16 @@ def synthetic_cases(draw, triggers):
     counter = [1000]
     filled = [0]
 
+    unique = bool(triggers.get('regions-located-by-equality'))
+    if unique:
+        excluded.append('equal source-less pragmas in one unit (listed: region pragmas are located by == instead of identity)')
+
     def prag(text=None, kw=None):
         counter[0] += 1
-        return {'k': 'Pragma', 'm': counter[0], 'text': text or draw(texts), 'kw': kw or draw(kws)}
+        text = text or draw(texts)
+        if unique and text != BARE_END:
+            text += f' id({counter[0]})'           # a parameter: does not take part in start/end matching
+        return {'k': 'Pragma', 'm': counter[0], 'text': text, 'kw': kw or draw(kws)}
 
     def run(pct):
         if draw(st.integers(0, 99)) >= pct:
@@ -217,12 +239,14 @@ def synthetic_cases(draw, triggers):
         if d['k'] == 'Section':
             d['label'] = None
         if d['k'] == 'Pragma' and 'text' not in d:
-            d['text'], d['kw'] = draw(texts), draw(kws)
+            d.update(prag())
         for c in tgen.desc_children(d):
             rec(c, in_where or d['k'] == 'MaskedStatement')
         for sl, kind in tgen.SLOTS.get(d['k'], ()):
             if kind == 'F':
-                d[sl] = deco(d.get(sl) or [], in_where or d['k'] == 'MaskedStatement')
+                # the else_body of an else-if Conditional is exactly the nested Conditional
+                keep = d['k'] == 'Conditional' and d.get('elif') and sl == 'else_body'
+                d[sl] = deco(d.get(sl) or [], in_where or d['k'] == 'MaskedStatement' or keep)
             else:
                 new = []
                 for b in d.get(sl) or []:
@@ -237,7 +261,8 @@ def synthetic_cases(draw, triggers):
         spec += run(40)
         spec.append({'k': 'VariableDeclaration', 'm': 500 + i})
     spec += run(40)
-    case = {'dom': 'tree', 'spec': spec, 'tree': tree, 'hist': draw(history())}
+    hists = draw(st.lists(history(), min_size=HISTORIES_PER_UNIT, max_size=HISTORIES_PER_UNIT))
+    case = {'dom': 'tree', 'spec': spec, 'tree': tree, 'hists': hists}
     if filled[0]:
         excluded.append('empty CASE/WHERE branch body (listed C14 finding: generic Transformer strips it)')
     if excluded:
@@ -478,10 +503,11 @@ def node_types(names):
 
 
 class Runner:
-    def __init__(self, case, ctx):
+    def __init__(self, case, ctx, unit=None):
         self.case = case
         self.ctx = ctx
-        self.unit = build_unit(case)
+        self.unit = build_unit(case) if unit is None else unit
+        self.lifo = True
         self.active = []          # stack / list of active op descriptions
         self.classes = set()
         self.nontrivial = False
@@ -491,10 +517,39 @@ class Runner:
         self.stale = set()
         self.version = 0
         self._snap = None
+        self._features = None
 
     # ---- reporting -----------------------------------------------------------
+    def features(self):
+        """features of the (detached) unit that name a confirmed root cause (primary signature patterns)"""
+        if self._features is None:
+            from loki.ir import nodes as ir
+            prs = [o for _, _, o in walk(self.unit, '', []) if isinstance(o, ir.Pragma)]
+            seen, equal = [], False
+            for p in prs:
+                if any(p is not q and _safe_eq(p, q) is True for q in seen):
+                    equal = True
+                    break
+                seen.append(p)
+            self._features = {
+                'typedef': any(c == 'TypeDef' for _, c, _ in walk(self.unit, '', [])),
+                'ends-with-end': any((p.content or '').lower().split(' ')[-1] == 'end' for p in prs),
+                'equal-pragmas': equal,
+            }
+        return self._features
+
     def fail(self, sig, detail):
         self.failed = True
+        f = self.features()
+        hist = json.dumps(self.case['hist'])
+        # one confirmed root cause = one signature, whatever shape the damage takes
+        if sig.startswith('C16:raises:dfa:attach:RuntimeError@') and sig.endswith(':uses_symbols') and f['typedef']:
+            sig = 'C16:raises:dfa:attach:unit-has-TypeDef'
+        elif sig.startswith('C16:raises:regions:attach:IndexError@') and sig.endswith(':_matches_starting_pragma') \
+                and f['ends-with-end']:
+            sig = 'C16:raises:regions:attach:pragma-ends-with-end'
+        elif f['equal-pragmas'] and '"op": "regions"' in hist and not sig.startswith('C16:raises:dfa'):
+            sig = 'C16:regions:equal-source-less-pragmas-in-unit'
         self.ctx.fail(sig, self.case, detail)
         raise Abort()
 
@@ -619,6 +674,8 @@ class Runner:
             for c in o['body']:
                 yield from footprint(c)
         for inner in footprint(op):
+            if inner['op'] == 'dfa':
+                continue               # dataflow info never changes the structure; its own check is check_dfa_gone
             for outer in self.active:
                 if outer['op'] == inner['op'] and (inner['op'] != 'pragmas' or set(outer['types']) & set(inner['types'])):
                     return False
@@ -753,9 +810,17 @@ class Runner:
     def run(self):
         hist = self.case['hist']
         place = placement_classes(self.unit)
+        self.features()
         s0 = attachment_stats(self.unit)
         if s0[1] or s0[2] or s0[3]:
-            raise AssertionError('generator bug: starting state is not detached')
+            if self.case['dom'] != 'src':
+                raise AssertionError('generator bug: starting state is not detached')
+            # the frontend / unit constructors use pragmas_attached themselves (dimension pragmas): a freshly parsed
+            # unit that still carries attachments means that this internal round trip did not detach
+            self.failed = True
+            self.ctx.fail('C16:freshly-parsed-unit-carries-attachments', self.case,
+                          f'after parsing: {s0[1]} pragmas attached as pragma, {s0[2]} as pragma_post, {s0[3]} regions')
+            return place
         lifo = True
         try:
             if hist['mode'] == 'nested':
@@ -765,7 +830,7 @@ class Runner:
                     except BodyError:
                         pass
             else:
-                lifo = self.run_flat(hist['steps'])
+                lifo = self.lifo = self.run_flat(hist['steps'])
             if lifo:
                 self.check_dfa_gone(None, hidden=True, when='end of history')
         except Abort:
@@ -781,24 +846,58 @@ def _opname(op):
     return f'dataflow({op.get("via", "fn")})'
 
 
-def check_case(case, ctx):
-    try:
-        r = Runner(case, ctx)
-    except Exception as e:  # noqa: the frontend refused generated text / builder refused a description
-        if case['dom'] == 'src':
-            raise
-        ctx.reject(e, case)
-        return
+def run_one(case, ctx, unit=None):
+    """one (unit, history) evaluation; returns the Runner"""
+    r = Runner(case, ctx, unit)      # exceptions here = generator bug (frontend / builder refused the input)
     place = r.run()
     classes = set(r.classes) | place
     classes.add(f'dom:{case["dom"]}' + (f':{case["unit"]}' if case['dom'] == 'src' else ''))
     classes.add(f'mode:{case["hist"]["mode"]}')
     for k, v in r.stats.items():
         classes.add(f'total-{k}:' + ('0' if v == 0 else '1-3' if v <= 3 else '4+'))
-    ctx.case(case, r.nontrivial, sorted(classes))
-    ctx.count('checkpoints-compared', r.checks)
-    for reason in case.get('excluded', ()):
-        ctx.exclude(reason)
+    r.summary = (r.nontrivial, sorted(classes), r.checks)
+    return r
+
+
+def check_case(case, ctx):
+    """
+    case with 'hist': one history on a fresh unit.  case with 'hists': the histories run one after the other on the
+    same unit as long as it stays clean (no failure reported, properly nested); every (unit, history) pair counts as
+    one evaluation.  A failure seen on a re-used unit is re-run on a fresh unit with that history alone; only if it
+    does not reproduce there it is reported with the whole sequence.
+    """
+    from ..core import Ctx
+    if 'hists' not in case:
+        hists, base = [case['hist']], {k: v for k, v in case.items() if k != 'hist'}
+    else:
+        hists, base = case['hists'], {k: v for k, v in case.items() if k != 'hists'}
+    unit = None
+    for i, h in enumerate(hists):
+        sub = dict(base, hist=h)
+        if unit is None:
+            r = run_one(sub, ctx)
+        else:
+            probe = Ctx(ctx.prop_id, ctx.tier, ctx.base_seed, ctx.shard, ctx.nshards, known_sigs=ctx.known_sigs)
+            r = run_one(sub, probe, unit)
+            if probe.failures:
+                fresh = Ctx(ctx.prop_id, ctx.tier, ctx.base_seed, ctx.shard, ctx.nshards, known_sigs=ctx.known_sigs)
+                run_one(sub, fresh)
+                if fresh.failures:
+                    for sig, e in fresh.failures.items():
+                        ctx.fail(sig, e['case'], e['detail'])
+                else:
+                    for sig, e in probe.failures.items():
+                        ctx.fail(sig + ':only-after-earlier-histories', dict(base, hists=hists[:i + 1]), e['detail'])
+                ctx.count('re-run-on-fresh-unit')
+        nontrivial, classes, checks = r.summary
+        ctx.case(sub, nontrivial, classes)
+        ctx.count('checkpoints-compared', checks)
+        for reason in case.get('excluded', ()):
+            ctx.exclude(reason)
+        clean = not r.failed and not r.stale and r.lifo
+        unit = r.unit if clean else None
+        if unit is not None and i + 1 < len(hists):
+            ctx.count('unit-reused-for-next-history')
 
 
 def run_shard(ctx):
@@ -807,15 +906,15 @@ def run_shard(ctx):
         ctx.note(f'listed root cause {k}: ' + ('still reproduces -> trigger excluded by construction' if v
                                                 else 'no longer reproduces -> trigger generated'))
     par, syn = parsed_cases(trig), synthetic_cases(trig)
-    total_p, total_s = ctx.scale(960, 40000), ctx.scale(1600, 100000)
+    total_p, total_s = ctx.scale(480, 16000), ctx.scale(800, 40000)     # units; x HISTORIES_PER_UNIT evaluations
     k = 0
     while (total_p > 0 or total_s > 0) and not ctx.out_of_time():
         if total_p > 0:
-            ctx.given(par, check_case, min(20, total_p), label=f'par-{k}')
-            total_p -= 20
+            ctx.given(par, check_case, min(8, total_p), label=f'par-{k}')
+            total_p -= 8
         if total_s > 0 and not ctx.out_of_time():
-            ctx.given(syn, check_case, min(40, total_s), label=f'syn-{k}')
-            total_s -= 40
+            ctx.given(syn, check_case, min(16, total_s), label=f'syn-{k}')
+            total_s -= 16
         k += 1
     if ctx.shard == 0:
         ctx.sample({'kind': 'history (nested)', 'meaning': 'with pragma_regions_attached(r): with pragmas_attached(r, Loop): '
